@@ -477,7 +477,7 @@ def specs(tier):
         for I0 in gr.subsets(nodes, 1, 2 if n <= 3 else 1):
             rest = [v for v in nodes if v not in I0]
             for R0 in gr.subsets(rest, 0, 1):
-                for (tmin, tmax) in ((0, "inf"), (1.5, 3.5), (0, 1), (0, 2.5)):
+                for (tmin, tmax) in ((0, "inf"), (1.5, 3.5), (0, 1), (0, 2.5), (-3, -1)):
                     if n == 4 and (tmin, tmax) != (0, "inf") and not thorough:
                         continue
                     for full in (False, True):
